@@ -20,6 +20,7 @@ import CobaVerif.Lemmas.C02
 import CobaVerif.Generated.C02ScanConsts
 import CobaVerif.Generated.C02MaxChunker
 import CobaVerif.Generated.C02SinkLoop
+import CobaVerif.Generated.C02Config
 
 namespace Coba.C02
 open Ex
@@ -654,5 +655,48 @@ theorem merge_perm_sublist {α : Type} (ls : List (List α)) (out : List α) (h 
 /-- the hypothesis of `multiprocess_order` is satisfiable: the single-process order is one of the interleavings -/
 theorem merge_sequential {α : Type} (ls : List (List α)) : Merge ls ls.flatten :=
   merge_flatten' ls
+
+/-! ### Phase 6: "re-runs using ANY execution configuration" — including the process-global one
+
+The three settings of a run can come from an earlier `.config()` call, from the arguments of `run()` and from the process-global
+`CobaContext.experiment`.  `runCfg` is the value `run` ends up with (`self.config(args…)` overwrites, then the property falls back
+to the context).  The resumed run is correct for EVERY combination of the three sources. -/
+
+/-- [phase 6] `run_cfg_spec`: the setting a run works with is the argument of `run()` when one is given, else the process-global
+`CobaContext.experiment` value; what an earlier `.config()` call stored never matters (`run` overwrites it) -/
+theorem run_cfg_spec (r : CfgRoute) :
+    (∀ a, r.arg = some a → runCfg r = a) ∧ (r.arg = none → runCfg r = r.ctx) ∧
+    (∀ s', runCfg ⟨s', r.arg, r.ctx⟩ = runCfg r) :=
+  ⟨fun a h => by rw [runCfg_eq', h], fun h => by rw [runCfg_eq', h], fun s' => runCfg_stored_irrelevant' s' r.stored r.arg r.ctx⟩
+
+/-- [phase 6] `resume_correct_any_config`: for every valid log, every cut, every chunk()ing of the environments and EVERY way the
+configuration reaches the run (`cfg`: stored / argument / process-global, for each of the three settings): the records may arrive
+in the single-process order of that configuration or as ANY interleaving of its chunks (multi-process) — the resumed run is
+correct as in `resume_correct` -/
+theorem resume_correct_any_config (w : World) (hw : w.OK) (L : List Rec) (hL : ValidLog w L) (k : Nat)
+    (chunkOf : Nat → Option Nat) (cfg : RunConfig) :
+    ∃ K, restore Flags.fixed w.c (some (cut w L k)) = some ⟨logFile w K, K⟩ ∧ K <+: L ∧
+      (∀ app, (app = (runOrderCfg chunkOf cfg (makeTasks true K w.triples)).filterMap w.out ∨
+               Merge ((chunkTasks chunkOf (runCfg cfg.mt) (makeTasks true K w.triples)).map
+                 (fun c => (processOrder c).filterMap w.out)) app) →
+        let o := finish w.c ⟨logFile w K, K⟩ (makeTasks true K w.triples) (preamble Flags.fixed w.ver w.exp K) app
+        o.file = logFile w (K ++ o.appended) ∧ o.final = some (K ++ o.appended) ∧ ValidLog w (K ++ o.appended) ∧
+        (K ++ o.appended).Perm w.universe ∧ (∀ t ∈ o.tasks, ∀ r ∈ K, r.key ≠ t.key)) :=
+  resume_correct_any_config' w hw L hL k chunkOf cfg
+
+/-- non-vacuity / the quirk made visible: `.config(maxtasksperchunk=5)` followed by `run()` without arguments under a context
+that says 2 runs with 2; with `run(maxtasksperchunk=3)` it runs with 3; multi-processing is decided on the effective values -/
+example : runCfg ⟨some 5, none, 2⟩ = 2 ∧ runCfg ⟨some 5, some 3, 2⟩ = 3 ∧ runCfg ⟨none, some 0, 2⟩ = 0 ∧
+    isMultiproc (runCfg ⟨some 4, none, 1⟩) (runCfg ⟨none, none, 0⟩) = false ∧
+    isMultiproc (runCfg ⟨none, none, 2⟩) 0 = true ∧ isMultiproc 1 (runCfg ⟨none, some 1, 0⟩) = true := by decide
+
+/-- [phase 6, translator obligation] the CURRENT source of `Experiment.config`, the three properties and the head of
+`Experiment.run` has the statements `configCall` / `cfgProp` / `runCfg` / `isMultiproc` mirror (found by `ast` on every run) -/
+theorem config_route_as_modelled :
+    Coba.Generated.C02Config.shape = ["config:self._processes=processes", "config:self._maxchunksperchild=maxchunksperchild",
+      "config:self._maxtasksperchunk=maxtasksperchunk", "prop:processes", "prop:maxchunksperchild", "prop:maxtasksperchunk",
+      "run:defaults-None", "run:self.config(processes,maxchunksperchild,maxtasksperchunk)", "run:mp,mc,mt=properties",
+      "run:is_multiproc=mp>1 or mc!=0", "run:ChunkTasks(mt)", "run:CobaMultiprocessor(_,mp,mc,_)"] := by
+  decide
 
 end Coba.C02
